@@ -129,7 +129,11 @@ class ExcelInPython:
             return self._by_operator(operator, int(left_operand), int(right_operand))
         except (ValueError, TypeError):
             try:
-                return self._by_operator(operator, float(left_operand), float(right_operand))
+                left_number, right_number = float(left_operand), float(right_operand)
+                # тексты вроде 'nan' не числа: для них нет ни <, ни =, ни >
+                if left_number != left_number or right_number != right_number:
+                    raise ValueError('not a number')
+                return self._by_operator(operator, left_number, right_number)
             except (ValueError, TypeError):
                 try:
                     # Приводим date к datetime для удобного сравнения
